@@ -630,6 +630,11 @@ class Check(core.PropertyCheck):
             if cands and rng.random() < 0.4:
                 data["prefill"] = rng.choice(cands)
             yield core.Scenario(data, source="random")
+        # found by the random driver (thorough), kept as a fixed scenario: a form body with a key that has no "=" (or an
+        # empty segment) makes url.encode(similar_to=...) trim "=", which deletes a pair with empty key AND empty value
+        for pre in (14, 16):
+            yield core.Scenario({"view": "urlenc", "prefill": pre, "ops": [{"op": "assign", "pairs": [[51, 1], [55, 2]]},
+                                                                           {"op": "writeback"}]}, source="suite")
         # unrepresentable pairs: exercised for totality, never judged (rep = FALSE)
         for view, k, v in (("cookies", 56, 1), ("cookies", 51, 7), ("cookies", 53, 1), ("rcookies", 56, 201), ("multipart", 57, 1),
                            ("multipart", 55, 1), ("multipart", 58, 1), ("cookies", 54, 8)):
